@@ -155,6 +155,21 @@ let run_case (line : string) : string =
                    if rsp.rs_link = [] then continue := false else last := lc rsp.rs_link
                  done;
                  outs := Printf.sprintf "{\"pages\":[%s]}" (String.concat "," (List.rev !pages)) :: !outs
+             | List [Atom "seed"; r; conv; List bl; List entries] ->
+                 (* a layout that is on disk before the server starts: its index is ingested when first loaded *)
+                 let blobs = List.map (function List [d; raw] -> (cl (str d), { b_data = BRaw (cl (str raw)); b_time = !st.st_now })
+                                               | _ -> failwith "seed blob") bl in
+                 let rp = { r_blobs = blobs; r_index = { top = List.map desc_of entries; child = [] }; r_conv = bool conv; r_uploads = [] } in
+                 let rp' = if !cfg.c_referrer then (match ingest_repo env !st.st_now rp with Ok x -> x | _ -> rp) else rp in
+                 st := set_repo (cl (str r)) (reload_repo env rp') !st;
+                 outs := json_resp (rsp (z_of_int 0)) :: !outs
+             | List [Atom "reseed"; r; conv; List entries] ->
+                 (* the index file is put back as it was (a conversion interrupted before index.json was written), blobs stay *)
+                 let cur = get_repo !cfg (cl (str r)) !st in
+                 let rp = { r_blobs = cur.r_blobs; r_index = { top = List.map desc_of entries; child = [] }; r_conv = bool conv; r_uploads = [] } in
+                 let rp' = if !cfg.c_referrer then (match ingest_repo env !st.st_now rp with Ok x -> x | _ -> rp) else rp in
+                 st := set_repo (cl (str r)) (reload_repo env rp') !st;
+                 outs := json_resp (rsp (z_of_int 0)) :: !outs
              | List [Atom "gc"; r] ->
                  let (s', rs) = gstep !cfg !pol env !st (GGC (cl (str r))) in
                  st := s'; outs := json_resp rs :: !outs
